@@ -462,7 +462,7 @@ class GroupEffectsMatrix:
             levels_n = len(term.expr.levels) if has_levels else 1
             if term_slice_width != len(groups) * levels_n:  # Has extra groups
                 assert (
-                    term_slice_width == len(groups) + levels_n
+                    term_slice_width == (len(groups) + 1) * levels_n
                 ), "It should only have one extra group"
                 groups = groups + ["__NEW_FACTOR_GROUP__"]
             content = [f"kind: {term.kind}", f"groups: {groups}"]
